@@ -224,7 +224,7 @@ func genNested(t *rapid.T) nestedCase {
 			if chance(t, "aArg", 30) && oc.Arg != "" {
 				inner := c.Inner[colIdx(a)-len(cols)]
 				intTyped := !(isIn(inner.Fn, valueFns) || isIn(inner.Fn, lagFns) || inner.Fn == "MIN" || inner.Fn == "MAX") || inner.Arg != "s"
-				if intTyped || !isIn(oc.Fn, []string{"SUM", "AVG", "MEDIAN", "USUM", "UHASH"}) {
+				if intTyped || !isIn(oc.Fn, []string{"SUM", "AVG", "MEDIAN", "USUM", "UHASH", "STDEV", "STDEVP", "VAR", "VARP"}) {
 					oc.Arg = a
 				}
 			}
@@ -531,7 +531,7 @@ func checkNested(c nestedCase) (fw.Outcome, *fw.Violation) {
 	for _, ic := range c.Inner {
 		cc := ic
 		cc.Rows = s1
-		vals, ok := ref.AnalyticUnique(buildInput(cc), len(s1))
+		vals, ok := analyticUnique(cc, len(s1))
 		if !ok {
 			o.Discard = true // the inner column has more than one admissible value: outside this check
 			return o, nil
@@ -579,7 +579,7 @@ func checkNested(c nestedCase) (fw.Outcome, *fw.Violation) {
 		}
 		if oc.Arg == "a1" || oc.Arg == "a2" {
 			kind := ""
-			if isIn(oc.Fn, []string{"SUM", "AVG", "MEDIAN", "USUM", "UHASH"}) {
+			if isIn(oc.Fn, []string{"SUM", "AVG", "MEDIAN", "USUM", "UHASH", "STDEV", "STDEVP", "VAR", "VARP"}) {
 				kind = "I"
 			}
 			if !oneKind(s3, colIdx(oc.Arg), kind) {
@@ -759,7 +759,7 @@ func checkNested(c nestedCase) (fw.Outcome, *fw.Violation) {
 	for k, oc := range c.Outer {
 		cc := oc
 		cc.Rows = s3
-		res := ref.AnalyticCheck(buildInput(cc), got[k])
+		res := analyticCheck(cc, got[k])
 		if res.Sig != "" {
 			// a near-duplicate call that shows another call's column?
 			for j, other := range c.Outer {
@@ -769,7 +769,7 @@ func checkNested(c nestedCase) (fw.Outcome, *fw.Violation) {
 				}
 				cj := other
 				cj.Rows = s3
-				if ref.AnalyticCheck(buildInput(cj), got[k]).Sig == "" {
+				if analyticCheck(cj, got[k]).Sig == "" {
 					return o, fw.V("near_duplicate_analytic_calls_merged:"+what, "%s\n  r%d shows the values of r%d (the calls differ only in a literal: %s); r%d: %s\n  rows the outer call sees (id,p1,p2,o1,o2,v,s,a..)=%v", sql, k+1, j+1, what, k+1, res.Msg, clipRows(s3))
 				}
 			}
